@@ -39,6 +39,9 @@ func init() {
 			}
 			c.Floor("B.primcontract", 9)
 			ruleSkipExhaustive(c)
+			// "returns exactly that field's length" for every well-formed field: Skip may not turn one away
+			ruleTightGuards(c, B, func(n string) bool { return strings.HasPrefix(n, "plenccore.") })
+			c.Floor("X.tightguard", 2)
 			ruleVarintDelegation(c)
 			ruleTagFormat(c)
 			ruleWireConsts(c)
